@@ -1,8 +1,8 @@
 (* C01 — every submitted work item runs exactly once and none is stranded.
-   PARTIAL: what is proved here are the word-level mechanisms the property is anchored in, for all 2^64 state
-   words, about the dq_state transition bodies regenerated from the source (Gen_dqstate).  The global statement
-   (exactly-once / no stranding for every interleaving of enqueue, wakeup, drain, unlock and pool growth) is NOT
-   proved: it needs the invariant over the whole lane protocol (DESIGN.md §6.0).  It is decided on the
+   THIS FILE holds only the word-level mechanisms the property is anchored in, for all 2^64 state words, about the
+   dq_state transition bodies regenerated from the source (Gen_dqstate).  The protocol theorems over all
+   interleavings are in Properties_C01_slane.v (serial lane), Properties_C01_slanet.v (its conformance automaton) and
+   Properties_C01_root.v (root queue, pool, monitor); what stays outside those models is decided on the
    implementation by the stress oracle of the check (per-item run counters, stuck detector). *)
 From Coq Require Import ZArith Bool List.
 From Verif Require Import Word Gen_consts Gen_dqstate Suspend_proofs Lane_iface.
